@@ -684,7 +684,7 @@ func (st *Runtime) evalPrimaryExpressionGroup(node Expression) reflect.Value {
 		node := node.(*CallExprNode)
 		baseExpr := st.evalBaseExpressionGroup(node.BaseExpr)
 		if baseExpr.Kind() != reflect.Func {
-			node.errorf("node %q is not func kind %q", node.BaseExpr, baseExpr.Type())
+			node.errorf("node %q is not func kind %q", node.BaseExpr, getTypeString(baseExpr))
 		}
 		ret, err := st.evalCallExpression(baseExpr, node.CallArgs)
 		if err != nil {
